@@ -179,6 +179,11 @@ out.append("CpLen == " + fun([(tla_str(s), str(n)) for s, n in cplen.items()]))
 order = sorted(strings, key=lambda i: strings[i].encode("utf-8"))
 out.append("\\* StrOrd[s]: rank of the string in ascending byte order (what Go's slices.Sort uses)")
 out.append("StrOrd == " + fun([(tla_str(s), str(order.index(s))) for s in strings]))
+import json as _json
+order_enc = sorted(strings, key=lambda i: _json.dumps(strings[i], ensure_ascii=False).replace("<", "\\u003c").replace(">", "\\u003e").replace("&", "\\u0026").encode("utf-8"))
+out.append("\\* StrOrdEnc[s]: rank of the string's encoding/json text (quotes, escapes incl. <, >, &) in byte order -")
+out.append("\\* what a sort of RENDERED object members would use (only the mutation MUT_Codec = sortEncoded reads it)")
+out.append("StrOrdEnc == " + fun([(tla_str(s), str(order_enc.index(s))) for s in strings]))
 out.append("PatIds == {" + ", ".join(tla_str(s) for s in patterns) + "}")
 out.append("Match == " + fun([(tla_str(p), fun([(tla_str(s), tla_bool(b)) for s, b in m.items()])) for p, m in match.items()]))
 out.append("====")
